@@ -128,78 +128,7 @@ func rulesC03(c *Ctx) {
 		c.Check(ok, "C03.sibling", n+":Insert(value=nil)", pos, "nil value handling: "+normal[n], "this implementation of Insert stores a nil value as is while a sibling normalises nil to the empty value: after Insert(k,nil) the key reads as absent through this layer but as present-with-empty-value once committed to the inner tree (a commit changes an answer)")
 	}
 
-	// overlay bookkeeping: Insert and Remove always record the key as dirty; only Commit forgets dirtiness
-	for _, m := range []string{"Insert", "Remove"} {
-		fn := c.needFn("C03.overlay", "storage/mkvs.(*treeOverlay)."+m)
-		if fn == nil {
-			continue
-		}
-		var marks []ssa.Instruction
-		for _, b := range fn.Blocks {
-			for _, in := range b.Instrs {
-				if mu, ok := in.(*ssa.MapUpdate); ok && strings.HasSuffix(vstr(mu.Map), "param:o.dirty") && vstr(mu.Value) == "true" {
-					marks = append(marks, in)
-				}
-			}
-		}
-		cut := NewCut()
-		for _, x := range marks {
-			cut.AddInstr(x)
-		}
-		hit := Reach(fn, nil, nil, func(i ssa.Instruction) bool { _, r := i.(*ssa.Return); return r }, cut)
-		c.Check(len(marks) > 0 && hit == nil, "C03.overlay", fname(fn)+":always-marks-dirty", c.P.Pos(fn.Pos()), "every exit has recorded the key as dirty", "an exit of the overlay's "+m+" does not record the key as dirty: the inner tree's value would shine through (Get/iterate/Commit see the old value)")
-	}
-	{
-		bad := 0
-		for _, fn := range c.P.FuncsInPkg("storage/mkvs") {
-			for _, call := range callsIn(fn) {
-				if calleeName(call) == "builtin.delete" && strings.HasSuffix(vstr(allArgs(call)[0]), ".dirty") && fname(fn) != "storage/mkvs.(*treeOverlay).Commit" {
-					bad++
-					c.Fail("C03.overlay", "dirty-forgotten<-"+fname(fn), c.P.InstrPos(call), "the overlay's dirty mark of a key is dropped outside Commit")
-				}
-			}
-		}
-		if bad == 0 {
-			c.OK("C03.overlay", "dirty-marks-only-cleared-by-Commit", "", "no delete(o.dirty, …) outside (*treeOverlay).Commit")
-		}
-	}
-
-	// after a commit the overlay is a transparent view again: its dirty set and pending writes are reset
-	if fn := c.needFn("C03.overlay", "storage/mkvs.(*treeOverlay).Commit"); fn != nil {
-		var resets []ssa.Instruction
-		for _, b := range fn.Blocks {
-			for _, in := range b.Instrs {
-				switch x := in.(type) {
-				case *ssa.Store:
-					if vstr(x.Addr) == "param:o.dirty" && strings.HasPrefix(vstr(x.Val), "make(map[string]bool)") {
-						resets = append(resets, in)
-					}
-				case ssa.CallInstruction:
-					if calleeName(x) == "builtin.clear" && strings.HasSuffix(vstr(x.Common().Args[0]), "param:o.dirty") {
-						resets = append(resets, in)
-					}
-				}
-			}
-		}
-		clr := CallsTo(fn, "o.overlay.Clear", "github.com/tidwall/btree.(*Map).Clear", "")
-		for _, ev := range []Ev{{Name: "dirty set reset", Fn: fn, Ins: resets}, clr} {
-			ok := !ev.Empty() && Reach(fn, nil, nil, anyOf(SuccessReturns(fn)), NewCut().AddInstr(ev.Ins...)) == nil
-			c.Check(ok, "C03.overlay", fname(fn)+":success⇒"+ev.Name, c.P.Pos(fn.Pos()), "every success exit of the overlay commit has passed "+ev.Name, "the overlay's Commit can succeed without "+ev.Name+": keys it removed stay masked (and are removed again from the inner tree at the next commit) although the overlay has been applied")
-		}
-	}
-	// the merged iterator exposes a key of the inner iterator only after the dirty-skip: either the key is not dirty
-	// or the inner iterator is exhausted
-	if fn := c.needFn("C03.overlay", "storage/mkvs.(*treeOverlayIterator).updateIteratorPosition"); fn != nil {
-		var adopt []ssa.Instruction
-		for _, b := range fn.Blocks {
-			for _, in := range b.Instrs {
-				if st, ok := in.(*ssa.Store); ok && (vstr(st.Addr) == "param:it.key" || vstr(st.Addr) == "param:it.value") && strings.Contains(vstr(st.Val), "param:it.inner.") {
-					adopt = append(adopt, in)
-				}
-			}
-		}
-		c.GuardedByAny("C03.overlay", fn, "!dirty[inner.Key()] (or inner exhausted)", []string{`^!\*\*param:it\.tree\.dirty\[string\(\*param:it\.inner\.Key\(\)\)\]$`, `^!\*param:it\.inner\.Valid\(\)$`}, Ev{Name: "it.key/value = inner key/value", Fn: fn, Ins: adopt}, "an inner key that the overlay overwrote or removed must never be yielded with the inner tree's value")
-	}
+	overlayDirtyRules(c, "C03.overlay")
 
 	// eviction safety: a pointer marked dirty is withdrawn from the eviction list (shared with C02)
 	dirtyRollbackRule(c, "C03.evict")
@@ -245,6 +174,31 @@ func rulesC03(c *Ctx) {
 			site = c.P.InstrPos(at)
 		}
 		c.Check(ok, "C03.evict", fname(fn)+":a dropped node is re-fetched or an error, never 'empty'", site, "after dropping a cached node every exit re-fetches it or reports an error", "after dropping a cached node (an internal node whose embedded leaf was evicted) derefNodePtr can answer (nil, nil) when the pointer is not clean: a locally modified subtree reads as empty and is lost at the next commit")
+	}
+
+	// making room for a node fetched during a traversal must not evict the nodes the traversal holds (the fetched node's
+	// ancestors): in derefNodePtr every path that commits a fetched node into the cache passes the pointer being
+	// dereferenced as the locked pointer (the remote path does; the local node database path does not — F24)
+	if fn := c.needFn("C03.evict", "storage/mkvs.(*cache).derefNodePtr"); fn != nil {
+		bad := ""
+		n := 0
+		for _, call := range callsIn(fn) {
+			switch calleeName(call) {
+			case "storage/mkvs.(*cache).commitNode":
+				n++
+				bad = c.P.InstrPos(call)
+			case "storage/mkvs.(*cache).tryCommitNode":
+				n++
+				if args := allArgs(call); len(args) < 3 || isNilConst(args[2]) {
+					bad = c.P.InstrPos(call)
+				}
+			}
+		}
+		site := c.P.Pos(fn.Pos())
+		if bad != "" {
+			site = bad
+		}
+		c.Check(n > 0 && bad == "", "C03.evict", fname(fn)+":a fetched node is cached without evicting the path that leads to it", site, "every commit of a fetched node into the cache locks the pointer being dereferenced", "derefNodePtr caches a node fetched from the local node database with no locked pointer: when the node capacity is smaller than a root-to-leaf path, making room evicts the least recently used node — an ancestor the operation in progress still holds — and the whole cached tree above the fetched node is dismantled under the operation; the pending root ends up a dirty pointer without a node and the next commit returns a wrong root")
 	}
 
 	// ---- (b) transaction-context discipline
@@ -329,4 +283,82 @@ func rulesC03(c *Ctx) {
 		}
 	}
 	c.Floor("C03.txctx", nCommit, 10, "Commit call sites")
+}
+
+// overlayDirtyRules: the overlay's bookkeeping of which keys it shadows (shared by C02 and C03: applying the same
+// operations directly or batched in an overlay must end with the same contents, hence the same root).
+func overlayDirtyRules(c *Ctx, rule string) {
+	// overlay bookkeeping: Insert and Remove always record the key as dirty; only Commit forgets dirtiness
+	for _, m := range []string{"Insert", "Remove"} {
+		fn := c.needFn(rule, "storage/mkvs.(*treeOverlay)."+m)
+		if fn == nil {
+			continue
+		}
+		var marks []ssa.Instruction
+		for _, b := range fn.Blocks {
+			for _, in := range b.Instrs {
+				if mu, ok := in.(*ssa.MapUpdate); ok && strings.HasSuffix(vstr(mu.Map), "param:o.dirty") && vstr(mu.Value) == "true" {
+					marks = append(marks, in)
+				}
+			}
+		}
+		cut := NewCut()
+		for _, x := range marks {
+			cut.AddInstr(x)
+		}
+		hit := Reach(fn, nil, nil, func(i ssa.Instruction) bool { _, r := i.(*ssa.Return); return r }, cut)
+		c.Check(len(marks) > 0 && hit == nil, rule, fname(fn)+":always-marks-dirty", c.P.Pos(fn.Pos()), "every exit has recorded the key as dirty", "an exit of the overlay's "+m+" does not record the key as dirty: the inner tree's value would shine through (Get/iterate/Commit see the old value)")
+	}
+	{
+		bad := 0
+		for _, fn := range c.P.FuncsInPkg("storage/mkvs") {
+			for _, call := range callsIn(fn) {
+				if calleeName(call) == "builtin.delete" && strings.HasSuffix(vstr(allArgs(call)[0]), ".dirty") && fname(fn) != "storage/mkvs.(*treeOverlay).Commit" {
+					bad++
+					c.Fail(rule, "dirty-forgotten<-"+fname(fn), c.P.InstrPos(call), "the overlay's dirty mark of a key is dropped outside Commit")
+				}
+			}
+		}
+		if bad == 0 {
+			c.OK(rule, "dirty-marks-only-cleared-by-Commit", "", "no delete(o.dirty, …) outside (*treeOverlay).Commit")
+		}
+	}
+
+	// after a commit the overlay is a transparent view again: its dirty set and pending writes are reset
+	if fn := c.needFn(rule, "storage/mkvs.(*treeOverlay).Commit"); fn != nil {
+		var resets []ssa.Instruction
+		for _, b := range fn.Blocks {
+			for _, in := range b.Instrs {
+				switch x := in.(type) {
+				case *ssa.Store:
+					if vstr(x.Addr) == "param:o.dirty" && strings.HasPrefix(vstr(x.Val), "make(map[string]bool)") {
+						resets = append(resets, in)
+					}
+				case ssa.CallInstruction:
+					if calleeName(x) == "builtin.clear" && strings.HasSuffix(vstr(x.Common().Args[0]), "param:o.dirty") {
+						resets = append(resets, in)
+					}
+				}
+			}
+		}
+		clr := CallsTo(fn, "o.overlay.Clear", "github.com/tidwall/btree.(*Map).Clear", "")
+		for _, ev := range []Ev{{Name: "dirty set reset", Fn: fn, Ins: resets}, clr} {
+			ok := !ev.Empty() && Reach(fn, nil, nil, anyOf(SuccessReturns(fn)), NewCut().AddInstr(ev.Ins...)) == nil
+			c.Check(ok, rule, fname(fn)+":success⇒"+ev.Name, c.P.Pos(fn.Pos()), "every success exit of the overlay commit has passed "+ev.Name, "the overlay's Commit can succeed without "+ev.Name+": keys it removed stay masked (and are removed again from the inner tree at the next commit) although the overlay has been applied")
+		}
+	}
+	// the merged iterator exposes a key of the inner iterator only after the dirty-skip: either the key is not dirty
+	// or the inner iterator is exhausted
+	if fn := c.needFn(rule, "storage/mkvs.(*treeOverlayIterator).updateIteratorPosition"); fn != nil {
+		var adopt []ssa.Instruction
+		for _, b := range fn.Blocks {
+			for _, in := range b.Instrs {
+				if st, ok := in.(*ssa.Store); ok && (vstr(st.Addr) == "param:it.key" || vstr(st.Addr) == "param:it.value") && strings.Contains(vstr(st.Val), "param:it.inner.") {
+					adopt = append(adopt, in)
+				}
+			}
+		}
+		c.GuardedByAny(rule, fn, "!dirty[inner.Key()] (or inner exhausted)", []string{`^!\*\*param:it\.tree\.dirty\[string\(\*param:it\.inner\.Key\(\)\)\]$`, `^!\*param:it\.inner\.Valid\(\)$`}, Ev{Name: "it.key/value = inner key/value", Fn: fn, Ins: adopt}, "an inner key that the overlay overwrote or removed must never be yielded with the inner tree's value")
+	}
+
 }
